@@ -625,7 +625,24 @@ func checkC19(w *World, c *Check, tier string) {
 	set := w.Method("NaturalLanguageValues", "Set")
 	count := w.Method("NaturalLanguageValues", "Count")
 	first := w.Method("NaturalLanguageValues", "First")
-	isRefTest := func(cond ssa.Value, fn *ssa.Function) bool {
+	// refTestHolds: the branch condition cond, taken with truth value onTrue, establishes 'entry tag == requested tag'
+	var isRefTest func(cond ssa.Value, fn *ssa.Function) bool
+	refTestHolds := func(g condGuard, fn *ssa.Function) bool {
+		bo, ok := g.cond.(*ssa.BinOp)
+		if !ok {
+			return false
+		}
+		switch bo.Op {
+		case token.EQL:
+			return g.onTrue && isRefTest(g.cond, fn)
+		case token.NEQ:
+			eq := *bo
+			eq.Op = token.EQL
+			return !g.onTrue && isRefTest(&eq, fn)
+		}
+		return false
+	}
+	isRefTest = func(cond ssa.Value, fn *ssa.Function) bool {
 		bo, ok := cond.(*ssa.BinOp)
 		if !ok || bo.Op != token.EQL {
 			return false
@@ -648,32 +665,75 @@ func checkC19(w *World, c *Check, tier string) {
 		return sawField && sawParam
 	}
 	if get != nil {
-		okGet := false
-		nilOther := true
-		for _, rb := range returnBlocks(get) {
-			ret := rb.Instrs[len(rb.Instrs)-1].(*ssa.Return)
-			if len(ret.Results) != 1 {
-				continue
+		// every text that can be returned is the Value of an element read where 'entry tag == requested tag' holds, the
+		// search is left right there (first match), and every other way out returns nil
+		loops := loopHeaders(get)
+		bad := ""
+		nValue := 0
+		var judge func(v ssa.Value, d int, seen map[ssa.Value]bool)
+		judge = func(v ssa.Value, d int, seen map[ssa.Value]bool) {
+			if d > 8 || seen[v] || bad != "" {
+				return
 			}
-			if isNilConst(ret.Results[0]) {
-				continue
-			}
-			under := false
-			for _, g := range rawGuards(rb) {
-				if g.onTrue && isRefTest(g.cond, get) {
-					under = true
+			seen[v] = true
+			switch x := unwrap(v).(type) {
+			case *ssa.Const:
+				if x.Value != nil {
+					bad = "Get can return a constant text"
+				}
+			case *ssa.Phi:
+				for _, e := range x.Edges {
+					judge(e, d+1, seen)
+				}
+			default:
+				// a load of (an element's) Value
+				isValue := false
+				var at *ssa.BasicBlock
+				if fp, ok := pr.fieldOf(unwrap(v)); ok && len(fp.Names) > 0 && fp.Names[len(fp.Names)-1] == "Value" {
+					isValue = true
+				}
+				if f, ok := unwrap(v).(*ssa.Field); ok && fieldNameOf(f.X.Type(), f.Field) == "Value" {
+					isValue = true
+				}
+				if in, ok := unwrap(v).(ssa.Instruction); ok {
+					at = in.Block()
+				}
+				if !isValue || at == nil {
+					bad = "Get can return " + shortVal(v) + ", which is not the text of an entry"
+					return
+				}
+				nValue++
+				under := false
+				for _, g := range rawGuards(at) {
+					if refTestHolds(g, get) {
+						under = true
+					}
+				}
+				if !under {
+					bad = "Get can return the text of an entry that was not tested for 'entry tag == requested tag'"
+					return
+				}
+				// first match: from here the search loop is not re-entered
+				for h := range loops[at] {
+					if reachesWithin(at, h, nil) {
+						bad = "Get keeps searching after a matching entry: it returns the text of the LAST entry with the tag, not the first"
+					}
 				}
 			}
-			if under {
-				okGet = true
-			} else {
-				nilOther = false
+		}
+		for _, rb := range returnBlocks(get) {
+			ret := rb.Instrs[len(rb.Instrs)-1].(*ssa.Return)
+			if len(ret.Results) == 1 && !isNilConst(ret.Results[0]) {
+				judge(ret.Results[0], 0, map[ssa.Value]bool{})
 			}
 		}
-		if okGet && nilOther {
-			c.ok("C19.get", "Get", w.FuncPos(get), "returns an entry's text only under tag == requested tag, nil otherwise")
+		if bad == "" && nValue == 0 {
+			bad = "Get never returns the text of an entry"
+		}
+		if bad == "" {
+			c.ok("C19.get", "Get", w.FuncPos(get), "returns an entry's text only under tag == requested tag (first match), nil otherwise")
 		} else {
-			c.bad("C19.get", "Get", w.FuncPos(get), "Get can return a text that is not guarded by the test 'entry tag == requested tag'")
+			c.bad("C19.get", "Get", w.FuncPos(get), bad)
 		}
 	} else {
 		c.bad("C19.get", "Get", "-", "method not found")
@@ -695,12 +755,15 @@ func checkC19(w *World, c *Check, tier string) {
 			for _, in := range b.Instrs {
 				switch x := in.(type) {
 				case *ssa.Store:
-					if _, isIdx := x.Addr.(*ssa.IndexAddr); isIdx {
+					if ia, isIdx := x.Addr.(*ssa.IndexAddr); isIdx {
+						if _, local := ia.X.(*ssa.Alloc); local {
+							continue // the temporary array of a variadic call
+						}
 						storeSeen = true
 						storeBlocks = append(storeBlocks, b)
 						under := false
 						for _, g := range rawGuards(b) {
-							if g.onTrue && isRefTest(g.cond, set) {
+							if refTestHolds(g, set) {
 								under = true
 							}
 						}
@@ -823,6 +886,25 @@ func checkC19(w *World, c *Check, tier string) {
 						flagGuard = true
 					}
 				}
+				// a counter of replacements: `if replaced > 0 { return }` / `if replaced == 0 { append }` where the counter
+				// is incremented only where an entry was overwritten
+				if bo, ok := g.cond.(*ssa.BinOp); ok {
+					phi, isPhi := bo.X.(*ssa.Phi)
+					k, isK := bo.Y.(*ssa.Const)
+					if isPhi && isK && k.Value != nil {
+						kv := k.Int64()
+						zeroSide := false // does this guard put the append on the 'counter is zero' side?
+						switch {
+						case bo.Op == token.GTR && kv == 0, bo.Op == token.NEQ && kv == 0, bo.Op == token.GEQ && kv == 1:
+							zeroSide = !g.onTrue
+						case bo.Op == token.EQL && kv == 0, bo.Op == token.LEQ && kv == 0, bo.Op == token.LSS && kv == 1:
+							zeroSide = g.onTrue
+						}
+						if zeroSide && counterOfStores(phi, storeBlocks, 0, map[*ssa.Phi]bool{}) {
+							flagGuard = true
+						}
+					}
+				}
 			}
 			afterStore := false
 			for _, sb := range storeBlocks {
@@ -869,15 +951,44 @@ func checkC19(w *World, c *Check, tier string) {
 	}
 	// ---- count / first ----
 	if count != nil {
+		// every value Count can return is len(receiver) (through a phi / local copy), or the constant 0
 		okCount := false
+		badCount := false
+		var judgeC func(v ssa.Value, d int)
+		judgeC = func(v ssa.Value, d int) {
+			if d > 6 {
+				badCount = true
+				return
+			}
+			v = unwrap(v)
+			if cv, ok := v.(*ssa.Convert); ok {
+				v = unwrap(cv.X)
+			}
+			if k, ok := v.(*ssa.Const); ok {
+				if k.Value == nil || k.Int64() != 0 {
+					badCount = true
+				}
+				return
+			}
+			if phi, ok := v.(*ssa.Phi); ok {
+				for _, e := range phi.Edges {
+					judgeC(e, d+1)
+				}
+				return
+			}
+			if inner, isLen := lenOperand(v); isLen && derivesFromRoot(inner, count.Params[0], 0) {
+				okCount = true
+				return
+			}
+			badCount = true
+		}
 		for _, rb := range returnBlocks(count) {
 			ret := rb.Instrs[len(rb.Instrs)-1].(*ssa.Return)
 			if len(ret.Results) == 1 {
-				if inner, isLen := lenOperand(unwrap(ret.Results[0])); isLen && derivesFromRoot(inner, count.Params[0], 0) {
-					okCount = true
-				}
+				judgeC(ret.Results[0], 0)
 			}
 		}
+		okCount = okCount && !badCount
 		if okCount {
 			c.ok("C19.count", "Count", w.FuncPos(count), "len of the receiver")
 		} else {
@@ -954,4 +1065,47 @@ func comparesFirstTwoParams(f *ssa.Function) bool {
 	}
 	cmpParamsMemo[f] = res
 	return res
+}
+
+// counterOfStores: phi is a counter that starts at 0 and is incremented (by a positive constant) only in blocks where an
+// entry was overwritten (a store block or one it dominates).
+func counterOfStores(phi *ssa.Phi, storeBlocks []*ssa.BasicBlock, d int, seen map[*ssa.Phi]bool) bool {
+	if d > 4 || seen[phi] {
+		return true
+	}
+	seen[phi] = true
+	incs := 0
+	for _, e := range phi.Edges {
+		switch x := e.(type) {
+		case *ssa.Const:
+			if x.Value == nil || x.Int64() != 0 {
+				return false
+			}
+		case *ssa.Phi:
+			if !counterOfStores(x, storeBlocks, d+1, seen) {
+				return false
+			}
+		case *ssa.BinOp:
+			k, ok := x.Y.(*ssa.Const)
+			if x.Op != token.ADD || !ok || k.Value == nil || k.Int64() <= 0 {
+				return false
+			}
+			if p, ok := x.X.(*ssa.Phi); !ok || !(p == phi || seen[p] || counterOfStores(p, storeBlocks, d+1, seen)) {
+				return false
+			}
+			inStore := false
+			for _, sb := range storeBlocks {
+				if sb == x.Block() || sb.Dominates(x.Block()) {
+					inStore = true
+				}
+			}
+			if !inStore {
+				return false
+			}
+			incs++
+		default:
+			return false
+		}
+	}
+	return true
 }
